@@ -113,7 +113,7 @@ fn full_fsm_step() {
     let k: u8 = kani::any();
     kani::assume(k <= 10);
     let mut f = fsm_in_variant(k);
-    assert!(variant_index(&f.state_machine) == k, "[C09] path reaches the intended implementation state");
+    assert!(variant_index(&f.state_machine) == k, "[C09][C01][C02] path reaches the intended implementation state");
     let q = abs(&f.state_machine);
     let w: [u8; 10] = kani::any();
     let r = f.advance(&w[..]);
@@ -125,12 +125,12 @@ fn full_fsm_step() {
             (Q::Data | Q::CData, Err(AmbigiousError::DW_or_TDT_CDW)) => (),
             (Q::AfterTdhNoData, Err(AmbigiousError::TDH_or_DDW0)) => (),
             (Q::AfterTdtDone, Err(AmbigiousError::DDW0_or_TDH_IHW)) => (),
-            _ => assert!(false, "[C09] illegal word is reported with the ambiguity class of its choice state"),
+            _ => assert!(false, "[C09][C02] illegal word is reported with the ambiguity class of its choice state"),
         }
     } else {
         assert!(got != Cls::Illegal, "[C09][C01] word legal in the current state is not rejected");
-        assert!(got == cls, "[C09] word is classified as the diagram prescribes");
-        assert!(Some(abs(&f.state_machine)) == next, "[C09] successor state is the diagram's successor");
+        assert!(got == cls, "[C09][C01][C02] word is classified as the diagram prescribes (the class selects the checks that run)");
+        assert!(Some(abs(&f.state_machine)) == next, "[C09][C01][C02] successor state is the diagram's successor");
     }
     // reachability of every implementation variant and of both outcomes
     kani::cover!(k == 0);
